@@ -1232,7 +1232,16 @@ fn prologue(g: &mut Gen, variant: u64) {
         // (a1, a10, a1b in document order) moves to another package: every child has to be re-keyed on its own
         let src = elems[elems.len() - 1];
         g.push(Op::CreateNamed(src, n.elidx("I-SIGNAL"), b"a10".to_vec()));
-        g.push(Op::CreateNamed(src, n.elidx("SYSTEM-SIGNAL"), b"a1b".to_vec()));
+        let r = g.push(Op::CreateNamed(src, n.elidx("SYSTEM-SIGNAL"), b"a1b".to_vec()));
+        // a reference from outside the container to the child whose name has a sibling's name as a prefix: it has to follow
+        if let Some(t) = oknum(&r) {
+            let r = g.push(Op::CreateNamed(elems[0], n.elidx("I-SIGNAL"), b"c".to_vec()));
+            if let Some(is) = oknum(&r) {
+                if let Some(rf) = oknum(&g.push(Op::CreateSub(is, n.elidx("SYSTEM-SIGNAL-REF")))) {
+                    g.push(Op::SetRefTarget(rf, t));
+                }
+            }
+        }
         let r = g.push(Op::CreateNamed(pk, n.elidx("AR-PACKAGE"), b"q".to_vec()));
         if let Some(q) = oknum(&r) {
             if variant % 2 == 0 {
